@@ -3,6 +3,7 @@
 package explore
 
 import (
+	"bytes"
 	"fmt"
 	"runtime"
 	"runtime/debug"
@@ -10,14 +11,59 @@ import (
 	"time"
 )
 
-// BlockTimeout: how long the scheduler waits for the running thread to reach its next scheduling point before it
-// concludes that the thread is blocked on synchronisation of the code under test itself (a mutex held by a thread
-// that is waiting for the baton). Such a thread is taken out of the enabled set until it shows up again; the other
+// A thread that does not reach its next scheduling point may be blocked on synchronisation of the code under test
+// itself (a mutex held by a thread that is waiting for the baton). That is decided from the goroutine's *state*, not
+// from elapsed time alone (on a loaded machine a runnable goroutine can go without a processor for a long time, and a
+// time-out would then change the enabled set and with it the meaning of a choice sequence): every PollInterval the
+// scheduler looks the goroutine up in the runtime's goroutine dump; only when it was seen waiting on a synchronisation
+// primitive at every poll for BlockTimeout is it taken out of the enabled set until it shows up again; the other
 // threads go on. DeadlockTimeout: all unfinished threads blocked for this long = deadlock.
 var (
+	PollInterval    = 50 * time.Millisecond
 	BlockTimeout    = 400 * time.Millisecond
 	DeadlockTimeout = 20 * time.Second
 )
+
+// goroutineWaiting reports whether goroutine gid is parked on a synchronisation primitive (mutex, rwmutex, cond,
+// waitgroup, channel, select) according to the runtime's goroutine dump. Running, runnable, in a system call, asleep,
+// assisting the collector or unknown: false.
+func goroutineWaiting(gid uint64) bool {
+	buf := make([]byte, 1<<20)
+	for {
+		n := runtime.Stack(buf, true)
+		if n < len(buf) {
+			buf = buf[:n]
+			break
+		}
+		if len(buf) >= 1<<28 {
+			return false
+		}
+		buf = make([]byte, 2*len(buf))
+	}
+	key := []byte(fmt.Sprintf("goroutine %d [", gid))
+	i := bytes.Index(buf, key)
+	for i > 0 && buf[i-1] != '\n' {
+		j := bytes.Index(buf[i+1:], key)
+		if j < 0 {
+			return false
+		}
+		i += 1 + j
+	}
+	if i < 0 {
+		return false
+	}
+	rest := buf[i+len(key):]
+	end := bytes.IndexAny(rest, ",]")
+	if end < 0 {
+		return false
+	}
+	switch string(rest[:end]) {
+	case "semacquire", "sync.Mutex.Lock", "sync.RWMutex.Lock", "sync.RWMutex.RLock", "sync.Cond.Wait", "sync.WaitGroup.Wait",
+		"chan receive", "chan send", "select", "chan receive (nil chan)", "chan send (nil chan)", "select (no cases)":
+		return true
+	}
+	return false
+}
 
 // Point is one scheduling decision of an execution.
 type Point struct {
@@ -109,10 +155,12 @@ func (s *Sched) Run(bodies []func(), prefix []int) *Exec {
 	s.Abort = ""
 	done := make([]bool, n)
 	x := &Exec{Panics: map[int]string{}}
+	gids := make([]uint64, n) // written by each thread before its first receive on resume[id]
 	for i := range bodies {
 		s.resume[i] = make(chan struct{})
 		go func(id int) {
-			s.ids.Store(goid(), id)
+			gids[id] = goid()
+			s.ids.Store(gids[id], id)
 			<-s.resume[id]
 			defer func() {
 				ev := event{thread: id, done: true}
@@ -183,6 +231,7 @@ func (s *Sched) Run(bodies []func(), prefix []int) *Exec {
 		s.current = t
 		running = t
 		s.resume[t] <- struct{}{}
+		var waiting time.Duration
 	wait:
 		for {
 			select {
@@ -192,10 +241,16 @@ func (s *Sched) Run(bodies []func(), prefix []int) *Exec {
 					break wait
 				}
 				// a thread that had been blocked reached its next point while t runs: keep waiting for t
-			case <-time.After(BlockTimeout):
-				blocked[t] = true
-				x.Blocked = true
-				break wait
+			case <-time.After(PollInterval):
+				if !goroutineWaiting(gids[t]) {
+					waiting = 0 // merely slow (or not given a processor): not blocked
+					continue
+				}
+				if waiting += PollInterval; waiting >= BlockTimeout {
+					blocked[t] = true
+					x.Blocked = true
+					break wait
+				}
 			}
 		}
 		if s.AtPoint != nil && s.Abort == "" {
